@@ -341,5 +341,13 @@ def pimap(fn, items, jobs=None, chunksize=1):
         for r in pool.imap(fn, items, chunksize):
             yield r
     finally:
-        pool.terminate()
-        pool.join()
+        # leaving the loop early (exception, break) can leave terminate()/join() waiting on a worker that is
+        # blocked on a full pipe: do the shutdown in a helper thread and stop waiting for it after a while
+        import threading
+
+        def _shutdown():
+            pool.terminate()
+            pool.join()
+        t = threading.Thread(target=_shutdown, daemon=True)
+        t.start()
+        t.join(30)
